@@ -194,6 +194,12 @@ class _Normaliser:
                     out = out[:i] + r4 + out[i + 1:]
                     self.changed += 1
                     continue
+            if isinstance(s, ast.If):
+                r6 = self._n6(out, i)
+                if r6 is not None:
+                    out = r6
+                    self.changed += 1
+                    continue
             if isinstance(s, ast.Try):
                 r5 = self._n5(s)
                 if r5 is not None:
@@ -298,6 +304,43 @@ class _Normaliser:
                 if isinstance(y.ctx, ast.Load):
                     return True
         return False
+
+    # ------------------------------------------------------------------ N6
+    @staticmethod
+    def _n6(block: List[ast.stmt], i: int) -> Optional[List[ast.stmt]]:
+        """`if T: return True` followed by `return False` (or as if/else; or with the constants swapped) where T is made of
+        comparisons, `not`, `and` / `or`, isinstance: `return T` / `return not T` - T already is the bool that is returned."""
+        s = block[i]
+
+        def boolish(t):
+            if isinstance(t, ast.Compare):
+                return True
+            if isinstance(t, ast.UnaryOp) and isinstance(t.op, ast.Not):
+                return True
+            if isinstance(t, ast.BoolOp):
+                return all(boolish(v) for v in t.values)
+            return isinstance(t, ast.Call) and isinstance(t.func, ast.Name) and t.func.id in ('isinstance', 'issubclass', 'callable', 'hasattr', 'bool')
+
+        def const_ret(st_):
+            if isinstance(st_, ast.Return) and isinstance(st_.value, ast.Constant) and isinstance(st_.value.value, bool):
+                return st_.value.value
+            return None
+        if len(s.body) != 1 or const_ret(s.body[0]) is None or not boolish(s.test):
+            return None
+        a = const_ret(s.body[0])
+        if len(s.orelse) == 1 and const_ret(s.orelse[0]) is not None:
+            b, rest = const_ret(s.orelse[0]), block[i + 1:]
+        elif not s.orelse and i + 1 < len(block) and const_ret(block[i + 1]) is not None:
+            b, rest = const_ret(block[i + 1]), block[i + 2:]
+        else:
+            return None
+        if a == b:
+            return None
+        val = s.test if a else ast.UnaryOp(op=ast.Not(), operand=s.test)
+        ret = ast.Return(value=val)
+        ast.copy_location(ret, s)
+        ast.fix_missing_locations(ret)
+        return block[:i] + [ret] + rest
 
     # ------------------------------------------------------------------ N5
     @staticmethod
@@ -580,19 +623,19 @@ def _expand_wrapping_decorators(tree: ast.Module) -> int:
         if w.args.vararg or w.args.kwarg or w.args.kwonlyargs or w.args.posonlyargs:
             continue
         wb = [s for s in w.body if not (isinstance(s, ast.Expr) and isinstance(s.value, ast.Constant))]
-        if not wb or not isinstance(wb[-1], ast.Return) or not isinstance(wb[-1].value, ast.Call):
-            continue
-        call = wb[-1].value
         wparams = [a.arg for a in w.args.args]
-        if not (isinstance(call.func, ast.Name) and call.func.id == m and not call.keywords and
-                [a.id if isinstance(a, ast.Name) else None for a in call.args] == wparams):
+        # exactly one use of m: a statement `return m(p1, p2, ...)` somewhere in the wrapper
+        uses = [y for s in wb for y in ast.walk(s) if isinstance(y, ast.Name) and y.id == m]
+        rets = [y for s in wb for y in ast.walk(s) if isinstance(y, ast.Return) and isinstance(y.value, ast.Call) and
+                isinstance(y.value.func, ast.Name) and y.value.func.id == m and not y.value.keywords and
+                [a.id if isinstance(a, ast.Name) else None for a in y.value.args] == wparams]
+        if len(uses) != 1 or len(rets) != 1:
             continue
-        pre = wb[:-1]
-        if any(isinstance(y, ast.Name) and y.id == m for s in pre for y in ast.walk(s)):
+        if any(isinstance(y, (ast.Nonlocal, ast.Global, ast.Yield, ast.YieldFrom, ast.FunctionDef, ast.Lambda)) for s in wb for y in ast.walk(s)):
             continue
-        if any(isinstance(y, (ast.Nonlocal, ast.Global, ast.Yield, ast.YieldFrom)) for s in pre for y in ast.walk(s)):
-            continue
-        decos[node.name] = (w, pre, wparams)
+        if any(isinstance(y, (ast.For, ast.While)) and any(z is rets[0] for z in ast.walk(y)) for s in wb for y in ast.walk(s)):
+            continue            # the call site is inside a loop of the wrapper
+        decos[node.name] = (w, (wb, rets[0]), wparams)
     if not decos:
         return 0
     n = 0
@@ -606,17 +649,49 @@ def _expand_wrapping_decorators(tree: ast.Module) -> int:
                 if len(fparams) != len(wparams) or node.args.vararg or node.args.kwarg or node.args.kwonlyargs or node.args.posonlyargs:
                     continue
                 ren = dict(zip(wparams, fparams))
+                wb, site = pre
+                site._nd_site = True
+                wb = copy.deepcopy(wb)          # every decorated function gets its own copy of the wrapper's statements
+                del site._nd_site
+                site = [y for s_ in wb for y in ast.walk(s_) if getattr(y, '_nd_site', False)][0]
                 locals_f = {y.id for s in node.body for y in ast.walk(s) if isinstance(y, ast.Name)}
-                pre_locals = {y.id for s in pre for y in ast.walk(s) if isinstance(y, ast.Name) and isinstance(y.ctx, ast.Store)}
+                pre_locals = {y.id for s in wb for y in ast.walk(s) if isinstance(y, ast.Name) and isinstance(y.ctx, ast.Store)}
                 if pre_locals & (locals_f | set(fparams)):
-                    continue            # the prelude's own locals would capture names of the function
+                    continue            # the wrapper's own locals would capture names of the function
+                doc = [s for s in node.body[:1] if isinstance(s, ast.Expr) and isinstance(s.value, ast.Constant)]
+                own_body = node.body[len(doc):] + [ast.Return(value=None)]
 
                 class R(ast.NodeTransformer):
                     def visit_Name(s, x):
                         return ast.copy_location(ast.Name(id=ren.get(x.id, x.id), ctx=x.ctx), x)
-                newpre = [R().visit(copy.deepcopy(s)) for s in pre]
-                doc = [s for s in node.body[:1] if isinstance(s, ast.Expr) and isinstance(s.value, ast.Constant)]
-                node.body = doc + newpre + node.body[len(doc):]
+
+                def splice(stmts):
+                    out = []
+                    for s_ in stmts:
+                        if s_ is site:
+                            out.extend(own_body)            # `return m(...)`: the function's own body, then return
+                            continue
+                        s2 = copy.copy(s_)
+                        for fld in ('body', 'orelse', 'finalbody'):
+                            b_ = getattr(s_, fld, None)
+                            if isinstance(b_, list) and b_ and isinstance(b_[0], ast.stmt):
+                                setattr(s2, fld, splice(b_))
+                        if isinstance(s_, ast.Try):
+                            s2.handlers = [copy.copy(h) for h in s_.handlers]
+                            for h2, h in zip(s2.handlers, s_.handlers):
+                                h2.body = splice(h.body)
+                        out.append(s2)
+                    return out
+                spliced = splice(wb)
+                # rename the wrapper's parameter names to the function's own, outside the function's own statements
+                own_ids = {id(y) for s_ in own_body for y in ast.walk(s_)}
+
+                class R2(ast.NodeTransformer):
+                    def visit_Name(s, x):
+                        if id(x) in own_ids:
+                            return x
+                        return ast.copy_location(ast.Name(id=ren.get(x.id, x.id), ctx=x.ctx), x)
+                node.body = doc + [R2().visit(s_) for s_ in spliced]
                 node.args.defaults = copy.deepcopy(w.args.defaults)
                 node.decorator_list.remove(d)
                 ast.fix_missing_locations(node)
@@ -650,9 +725,107 @@ def _straight_line_generators(tree: ast.Module) -> int:
     return n
 
 
+def _drop_overload_stubs(tree: ast.Module) -> int:
+    """NO: `@overload` stubs are typing declarations; the name is bound by the last, undecorated definition."""
+    n = 0
+    for node in ast.walk(tree):
+        body = getattr(node, 'body', None)
+        if not isinstance(body, list) or not isinstance(node, (ast.Module, ast.ClassDef)):
+            continue
+        keep = []
+        for s in body:
+            if isinstance(s, ast.FunctionDef) and any((isinstance(d, ast.Name) and d.id == 'overload') or
+                                                      (isinstance(d, ast.Attribute) and d.attr == 'overload') for d in s.decorator_list):
+                n += 1
+                continue
+            keep.append(s)
+        if len(keep) != len(body):
+            node.body = keep or [ast.Pass()]
+    return n
+
+
+def _synthesise_dataclass_inits(tree: ast.Module) -> int:
+    """NC: a @dataclass class without an explicit __init__ gets the constructor the decorator generates - one parameter per
+    annotated class-level field, in order, with the field's default, stored as `self.<field> = <field>` - so that constructing
+    it, reading its fields and calling its methods are analysed like any hand-written class.  Classes that use `field(...)`
+    with a factory, `InitVar`, `kw_only` or `__post_init__` are left alone (unsupported: their constructor calls stay opaque)."""
+    n = 0
+    aliases = {}
+    for s0 in tree.body:
+        if isinstance(s0, ast.Assign) and len(s0.targets) == 1 and isinstance(s0.targets[0], ast.Name) and isinstance(s0.value, ast.Call):
+            f0 = s0.value.func
+            if (isinstance(f0, ast.Name) and f0.id == 'dataclass') or (isinstance(f0, ast.Attribute) and f0.attr == 'dataclass'):
+                aliases[s0.targets[0].id] = s0.value        # _holder = dataclass(eq=False, ...)
+    for node in ast.walk(tree):
+        if not isinstance(node, ast.ClassDef):
+            continue
+        deco = None
+        for d in node.decorator_list:
+            if isinstance(d, ast.Name) and d.id in aliases:
+                d = aliases[d.id]
+            nm = d.func if isinstance(d, ast.Call) else d
+            nm = nm.id if isinstance(nm, ast.Name) else (nm.attr if isinstance(nm, ast.Attribute) else None)
+            if nm == 'dataclass':
+                deco = d
+        if deco is None:
+            continue
+        if isinstance(deco, ast.Call) and any(k.arg in ('init', 'kw_only') and not (isinstance(k.value, ast.Constant) and k.value.value is
+                                                                                   (True if k.arg == 'init' else False)) for k in deco.keywords):
+            continue
+        if any(isinstance(s, ast.FunctionDef) and s.name in ('__init__', '__post_init__') for s in node.body):
+            continue
+        if any(isinstance(b, ast.Name) and b.id != 'object' or isinstance(b, ast.Attribute) for b in node.bases):
+            continue            # inherited dataclass fields are not collected
+        fields, ok = [], True
+        for s in node.body:
+            if isinstance(s, ast.AnnAssign) and isinstance(s.target, ast.Name):
+                ann = ast.unparse(s.annotation)
+                if 'ClassVar' in ann:
+                    continue
+                if 'InitVar' in ann:
+                    ok = False
+                default = s.value
+                if isinstance(default, ast.Call) and (getattr(default.func, 'id', None) == 'field' or getattr(default.func, 'attr', None) == 'field'):
+                    kws = {k.arg: k.value for k in default.keywords}
+                    if set(kws) - {'default', 'repr', 'compare', 'hash', 'metadata'}:
+                        ok = False
+                    default = kws.get('default')
+                fields.append((s.target.id, s.annotation, default))
+        if not ok or not fields:
+            continue
+        seen_default = False
+        for _, _, d in fields:
+            if d is not None:
+                seen_default = True
+            elif seen_default:
+                ok = False
+        if not ok:
+            continue
+        import copy
+        args = ast.arguments(posonlyargs=[], args=[ast.arg(arg='self')] + [ast.arg(arg=f, annotation=copy.deepcopy(a)) for f, a, _ in fields],
+                             vararg=None, kwonlyargs=[], kw_defaults=[], kwarg=None,
+                             defaults=[copy.deepcopy(d) for _, _, d in fields if d is not None])
+        body = [ast.Assign(targets=[ast.Attribute(value=ast.Name(id='self', ctx=ast.Load()), attr=f, ctx=ast.Store())],
+                           value=ast.Name(id=f, ctx=ast.Load())) for f, _, _ in fields]
+        init = ast.FunctionDef(name='__init__', args=args, body=body, decorator_list=[], returns=None, type_comment=None)
+        try:
+            init.type_params = []
+        except Exception:
+            pass
+        ast.copy_location(init, node)
+        ast.fix_missing_locations(init)
+        for y in ast.walk(init):
+            if hasattr(y, 'lineno'):
+                y.lineno = y.end_lineno = node.lineno
+        # class-level defaults stay (they are also class attributes); the annotations without values are dropped by N0
+        node.body.append(init)
+        n += 1
+    return n
+
+
 def normalise_module(tree: ast.Module) -> int:
     """Apply the normal forms to every function of the module, in place; returns the number of rewrites."""
-    n = _expand_wrapping_decorators(tree) + _straight_line_generators(tree)
+    n = _synthesise_dataclass_inits(tree) + _drop_overload_stubs(tree) + _expand_wrapping_decorators(tree) + _straight_line_generators(tree)
     uses_annotations = any(isinstance(x, ast.Attribute) and x.attr == '__annotations__' or
                            isinstance(x, ast.Name) and x.id in ('dataclass', 'get_type_hints', 'NamedTuple') for x in ast.walk(tree))
     if not uses_annotations:
